@@ -36,6 +36,15 @@ pub fn numberings(f: &P) -> Vec<P> {
 
 /// shapes with arbitrary arities (label 0 everywhere): for layering, predicates, morphisms
 pub fn shapes(kmax: usize) -> Vec<(String, P)> {
+    let ks: Vec<usize> = (1..=kmax).collect();
+    let mut out = shapes_at(&ks, true);
+    out.extend(fan_multis());
+    out
+}
+
+/// the shape families at the given size parameters only (`gaps`: also the O(k^2) skip(j,k) family); used with
+/// large parameters (33 .. 513) for the slices that look for size thresholds
+pub fn shapes_at(ks: &[usize], gaps: bool) -> Vec<(String, P)> {
     let mut out: Vec<(String, P)> = vec![];
     let mut add = |name: String, nodes: usize, edges: Vec<PEdge<u8>>, s: Vec<usize>, t: Vec<usize>, out: &mut Vec<(String, P)>| {
         let f = P { nodes: vec![0; nodes], edges, s, t };
@@ -43,7 +52,7 @@ pub fn shapes(kmax: usize) -> Vec<(String, P)> {
             out.push((format!("{}#{}", name, i), g));
         }
     };
-    for k in 1..=kmax {
+    for &k in ks {
         // one hyperedge fanning out / in
         add(format!("fan-out({})", k), k + 1, vec![edge(0, vec![0], (1..=k).collect())], vec![0], (1..=k).collect(), &mut out);
         add(format!("fan-in({})", k), k + 1, vec![edge(0, (1..=k).collect(), vec![0])], (1..=k).collect(), vec![0], &mut out);
@@ -72,7 +81,7 @@ pub fn shapes(kmax: usize) -> Vec<(String, P)> {
         e.push(edge(0, vec![0, k], vec![k + 1]));
         add(format!("unbalanced({})", k), k + 2, e, vec![0], vec![k + 1], &mut out);
         // an operation whose predecessors sit at depths j and k of a chain (every gap)
-        for j in 1..k {
+        for j in 1..(if gaps { k } else { 1 }) {
             let mut e: Vec<PEdge<u8>> = (0..k).map(|i| edge(0, vec![i], vec![i + 1])).collect();
             e.push(edge(0, vec![j, k], vec![k + 1]));
             add(format!("skip({},{})", j, k), k + 2, e, vec![0], vec![k + 1], &mut out);
@@ -88,6 +97,17 @@ pub fn shapes(kmax: usize) -> Vec<(String, P)> {
         }
         add(format!("shared-operand({})", k), nn, e, vec![0], vec![acc], &mut out);
     }
+    out
+}
+
+fn fan_multis() -> Vec<(String, P)> {
+    let mut out: Vec<(String, P)> = vec![];
+    let mut add = |name: String, nodes: usize, edges: Vec<PEdge<u8>>, s: Vec<usize>, t: Vec<usize>, out: &mut Vec<(String, P)>| {
+        let f = P { nodes: vec![0; nodes], edges, s, t };
+        for (i, g) in numberings(&f).into_iter().enumerate() {
+            out.push((format!("{}#{}", name, i), g));
+        }
+    };
     // one operation reaching the same node with multiplicity k and another node once (counting paths
     // with more than 16 / 32 entries in one sweep)
     for k in [3usize, 8, 15, 16, 17, 31, 32, 33] {
@@ -103,6 +123,12 @@ pub fn shapes(kmax: usize) -> Vec<(String, P)> {
 
 /// programs over the fixed-arity test signature of C16 (sub 2, neg 3, copy 4, const 6, discard 7, add 0)
 pub fn programs(kmax: usize) -> Vec<(String, P)> {
+    let ks: Vec<usize> = (1..=kmax).collect();
+    programs_at(&ks, true)
+}
+
+/// the program families at the given size parameters only (`gaps`: also skip-sub(j,k))
+pub fn programs_at(ks: &[usize], gaps: bool) -> Vec<(String, P)> {
     let mut out: Vec<(String, P)> = vec![];
     let mut add = |name: String, nodes: usize, edges: Vec<PEdge<u8>>, s: Vec<usize>, t: Vec<usize>, out: &mut Vec<(String, P)>| {
         let f = P { nodes: vec![0; nodes], edges, s, t };
@@ -110,7 +136,7 @@ pub fn programs(kmax: usize) -> Vec<(String, P)> {
             out.push((format!("{}#{}", name, i), g));
         }
     };
-    for k in 1..=kmax {
+    for &k in ks {
         // k parallel negations (one layer with k operations)
         add(format!("parallel-neg({})", k), 2 * k, (0..k).map(|i| edge(3, vec![i], vec![k + i])).collect(), (0..k).collect(), (k..2 * k).collect(), &mut out);
         // alternating neg / copy+discard in one layer
@@ -154,7 +180,7 @@ pub fn programs(kmax: usize) -> Vec<(String, P)> {
         e.extend((0..k).map(|i| edge(3, vec![i], vec![k + i])));
         add(format!("const-neg({})", k), 2 * k, e, vec![], (k..2 * k).collect(), &mut out);
         // sub(x_j, x_k) on a chain of k negations: predecessors at depths j and k
-        for j in 1..k {
+        for j in 1..(if gaps { k } else { 1 }) {
             let mut e: Vec<PEdge<u8>> = (0..k).map(|i| edge(3, vec![i], vec![i + 1])).collect();
             e.push(edge(2, vec![j, k], vec![k + 1]));
             add(format!("skip-sub({},{})", j, k), k + 2, e, vec![0], vec![k + 1], &mut out);
